@@ -105,6 +105,10 @@ func (c *CEnv) lit(v CVal, t types.Type) CVal {
 	case isString(t):
 		return CVal{S: smtString(constant.StringVal(v.K)), T: t}
 	case isBool(t):
+		if v.K.Kind() != constant.Bool {
+			c.fail("cannot use constant %s as a boolean", v.K)
+			return CVal{S: "false", T: t}
+		}
 		if constant.BoolVal(v.K) {
 			return CVal{S: "true", T: t}
 		}
@@ -377,7 +381,11 @@ func (c *CEnv) ident(name string) CVal {
 		}
 	}
 	if sp, ok := e.P.CS.Specs[name]; ok && len(sp.Params) == 0 {
-		return c.ev(sp.Body)
+		n := *c
+		if tp := e.P.typesByPath[sp.Pkg]; tp != nil {
+			n.pkg = tp
+		}
+		return n.ev(sp.Body)
 	}
 	if o := types.Universe.Lookup(name); o != nil {
 		if tn, ok := o.(*types.TypeName); ok {
@@ -982,6 +990,9 @@ func (c *CEnv) call(x *ast.CallExpr) CVal {
 		n.phis = nil
 		n.frame = nil
 		n.lets = nil
+		if tp := e.P.typesByPath[sp.Pkg]; tp != nil {
+			n.pkg = tp
+		}
 		return n.ev(sp.Body)
 	}
 	// pure Go function with a contract marked uf, or method call p.M(args) on spec level
